@@ -17,7 +17,11 @@ def log_softmax_posterior(log_w, log_p, mask=None):
     log_w, log_p broadcast to (..., K, N); mask boolean or None. Columns where every class is
     switched off (or has zero weight) give an all-zero column."""
     with np.errstate(divide='ignore', invalid='ignore', over='ignore', under='ignore'):
-        s = np.asarray(log_w, dtype=np.float64) + np.asarray(log_p, dtype=np.float64)
+        lp = np.asarray(log_p, dtype=np.float64)
+        # remove the common offset first: log_p may be of magnitude 1e10 and log_w of order one would be rounded away
+        top = np.max(lp, axis=-2, keepdims=True)
+        lp = lp - np.where(np.isfinite(top), top, 0.0)
+        s = np.asarray(log_w, dtype=np.float64) + lp
         if mask is not None:
             s = np.where(mask, s, -np.inf)
         lse = scipy.special.logsumexp(s, axis=-2, keepdims=True)
